@@ -30,6 +30,8 @@ pub struct Ctx {
     pub cfr_bin: String,
     pub scratch: String,
     pub deadline: Instant,
+    /// where the case being run is recorded, so that a crash or hang can name it
+    pub current_path: String,
 }
 
 impl Ctx {
@@ -64,6 +66,9 @@ impl Ctx {
                 .push(json!({"kind": "property", "case": case, "what": what}));
         }
         self.stat("property_failures");
+    }
+    pub fn record_current(&self, case: &Value) {
+        let _ = std::fs::write(&self.current_path, serde_json::to_string(case).unwrap_or_default());
     }
     pub fn out_of_time(&self) -> bool {
         Instant::now() > self.deadline
@@ -148,7 +153,9 @@ fn main() {
         i += 1;
     }
     // panics inside the library are caught per case; keep the default hook quiet
-    std::panic::set_hook(Box::new(|_| {}));
+    if std::env::var("HARNESS_PANIC").is_err() {
+        std::panic::set_hook(Box::new(|_| {}));
+    }
     let start = Instant::now();
     let thorough = tier == "thorough";
     if budget_s == 0 {
@@ -171,6 +178,7 @@ fn main() {
         cfr_bin,
         scratch,
         deadline: start + std::time::Duration::from_secs(budget_s),
+        current_path: format!("{}.current", out),
     };
     let mut rule = String::new();
     if let Some(path) = replay {
@@ -251,6 +259,7 @@ fn main() {
         "wall_s": start.elapsed().as_secs_f64(),
     });
     std::fs::write(&out, serde_json::to_string_pretty(&res).unwrap()).expect("cannot write result");
+    let _ = std::fs::remove_file(&ctx.current_path);
     let bad = !ctx.corr_fail.is_empty() || !ctx.prop_fail.is_empty();
     std::process::exit(if bad { 3 } else { 0 });
 }
